@@ -17,8 +17,9 @@ RULE = ("scripts = (send budget, global default stack, two modules each with Mod
         "handler script with 0..3 start-up stages and optionally a sleeping task or a shutdown/restart trigger, message injections onto a "
         "gate or directly) drawn from a structured generator: stacks of 0..6 elements mixing pass/modify/consume, sends from every hook "
         "(schedule_in to self, send_in to the peer, delays chosen to create equal arrival times), injections with tied times, timer "
-        "deadlines tied with messages; 15% of the scripts make a handler callback (handle_message / at_sim_start / at_sim_end) panic under a "
-        "catching stereotype; 12% of the scripts are bursts: one event (start-up stage, first message or wake-up) sends 24..190 "
+        "deadlines tied with messages; 13% of the scripts make a handler callback (handle_message / at_sim_start / at_sim_end) panic under a "
+        "catching stereotype; 7% are multi-stage modules whose at_sim_start(k) panics (caught) in the first start-up or in the restart after a "
+        "shutdown, k over all stages; 12% of the scripts are bursts: one event (start-up stage, first message or wake-up) sends 24..190 "
         "messages from one to three hooks with delays from {0,1,2,3}*unit in non-monotone order with many ties; non-trivial = distinct script whose run contains a message bracket and hits >= 3 targeted mechanisms")
 TRUSTED = ["user code (elements, handler, task) is a script language: pass / modify(+k) / consume, sends from every hook under a shared budget, "
            "one sleeping task per module, or one shutdown trigger, or one callback (handle_message / at_sim_start / at_sim_end) that panics under a "
@@ -200,10 +201,39 @@ def gen_burst(rng):
                    "mods": [{"mode": mode, "own": own, "h": h}, {"mode": 2, "own": peer_own, "h": hb}], "inj": inj})
 
 
+def stage_panic_script(stages, k, restart, nel, ids, unit=1, delay=0, consume_at=None, two=False, emits=False):
+    """module 0 has `stages` start-up stages and `nel` elements; its at_sim_start(k) panics (caught):
+    restart=False: in the first start-up (the sweep must skip stages k+1..);
+    restart=True : only from t=1 on, i.e. in the restart that follows its shutdown (module_restart must stop)."""
+    els = [{"act": CONSUME if consume_at == j else PASS, "k": 0, "start": [(0, unit, ids())] if emits and j == 0 else [], "in": [],
+            "end": [(0, unit, ids())] if emits and j == 0 else []} for j in range(nel)]
+    h = {"stages": stages, "start": [(0, 2 * unit, ids())] if emits else [], "msg": [], "end": [], "task": [], "xa": 0, "xb": 0, "xc": 0}
+    if restart:
+        h.update({"xkind": 2, "xa": 7, "xb": 1, "xc": delay, "pf": 1, "pst": k, "psince": 1})
+        inj = [(0, 0, 2 * unit, 7), (1, 0, 2 * unit + delay, 8), (0, 0, 5 * unit + delay, 9)]
+    else:
+        h.update({"xkind": 3, "xa": k, "xb": 1, "xc": 0})
+        inj = [(0, 0, 2 * unit, 7), (1, 0, 3 * unit, 8)]
+    hb = {"stages": stages if two else 1, "xkind": 0}
+    if two:     # the other module panics in the same way one stage later / earlier
+        hb.update({"xkind": 3, "xa": (k + 1) % stages, "xb": 1, "xc": 0})
+    return encode({"budget": 12 if emits else 0, "global": els[:nel // 2],
+                   "mods": [{"mode": 1, "own": els[nel // 2:], "h": h}, {"mode": 0, "own": [], "h": hb}], "inj": inj})
+
+
+def gen_stage_panic(rng):
+    ids = IdGen(1000)
+    stages = rng.choice([2, 2, 3, 3, 3, 1])
+    return stage_panic_script(stages, rng.randint(0, stages - 1), rng.random() < 0.7, rng.choice([1, 1, 2, 3, 4]), ids,
+                              unit=rng.choice([1, 1, 1000, 2500000]), delay=rng.choice([0, 0, 1, 5, 1000]),
+                              consume_at=None, two=rng.random() < 0.3, emits=rng.random() < 0.4)
+
+
 def gen(rng, n):
     for _ in range(n):
         r = rng.random()
-        yield gen_burst(rng) if r < 0.12 else gen_script(rng, panic=True) if r < 0.27 else gen_script(rng)
+        yield (gen_burst(rng) if r < 0.12 else gen_script(rng, panic=True) if r < 0.25 else gen_stage_panic(rng) if r < 0.32
+               else gen_script(rng))
 
 
 def exhaustive():
@@ -223,6 +253,15 @@ def exhaustive():
                     yield encode({"budget": 12, "global": glob,
                                   "mods": [{"mode": mode, "own": own, "h": h}, {"mode": 2, "own": [], "h": hb}],
                                   "inj": [(0, 0, 5, 1), (1, 0, 5, 2), (0, 1, 5, 3), (0, 0, 7, 4), (1, 0, 20, 5)]})
+    # a caught panic in stage k of the first start-up / of a restart, k over all stages
+    for stages in (1, 2, 3):
+        for k in range(stages):
+            for restart in (False, True):
+                for nel in (0, 1, 2):
+                    for delay in (0, 3):
+                        for two in (False, True):
+                            for emits in (False, True):
+                                yield stage_panic_script(stages, k, restart, nel, IdGen(1000), delay=delay, two=two, emits=emits)
 
 
 # ----------------------------------------------------------------------------- the property on the implementation's log
@@ -334,6 +373,18 @@ def monitor(script, out):
         brs = parse_brackets(d, es)
     except (ValueError, Bad) as e:
         return str(e)
+    # brackets exist exactly around the events a module gets: none once a caught panic made it inert (tear-down
+    # excepted), none around nothing (a bracket without callback needs a sleeping task's wake-up)
+    inert = set()
+    for br in brs:
+        m = br["m"]
+        if m in inert and br["handler"] != H_SIMEND:
+            return ("entry %d: module %d was deactivated by a caught panic, yet its processing elements bracket another event (%s)"
+                    % (br["at"], m, HOOK.get(br["handler"], "no callback")))
+        if len(stack_of(d, m)) > 0 and br["handler"] is None and not br["task"] and br["first"] is None and d["mods"][m]["h"]["xkind"] != 1:
+            return "entry %d: the processing elements of module %d bracket an event that does not exist (no message, no callback, no timer)" % (br["at"], m)
+        if br["panic"]:
+            inert.add(m)
     # messages sent during one event for the same module and arrival instant are delivered in program order
     src = {}
     for k, dst, t, x in d["inj"]:
@@ -414,6 +465,12 @@ def mechanisms(script, out):
                     H_SIMEND: "caught_panic_in_at_sim_end"}.get(br["handler"], "caught_panic_elsewhere"))
             if br["emits"]:
                 ms.add("sends_before_caught_panic")
+            if br["handler"] == H_SIMSTART:
+                stage = es[[j for j in range(br["at"], len(es)) if es[j][2] == H_SIMSTART][0]][3]
+                if stage + 1 < d["mods"][br["m"]]["h"]["stages"]:
+                    # the monitor passed, so no bracket of a later stage followed
+                    ms.add("restart_stage_panics_caught_remaining_stages_skipped" if any(
+                        x[2] == H_RESET and x[0] == br["m"] for x in es[:br["at"]]) else "first_start_stage_panics_caught_remaining_stages_skipped")
         if br["task"]:
             ms.add("task_in_wakeup_bracket" if br["handler"] is None else "task_in_other_bracket")
         if br["emits"]:
